@@ -30,6 +30,8 @@ pub struct SysCfg {
     /// states that have an init but no next, and states with neither
     pub nextless_states: bool,
     pub array_eq: bool,
+    /// constant arrays only as init values
+    pub array_const_only_in_init: bool,
 }
 
 impl Default for SysCfg {
@@ -51,6 +53,7 @@ impl Default for SysCfg {
             array_inputs: false,
             nextless_states: false,
             array_eq: true,
+            array_const_only_in_init: false,
         }
     }
 }
@@ -136,6 +139,7 @@ pub fn gen_system(rng: &mut Rng, ctx: &mut Context, cfg: &SysCfg, prefix: &str) 
     ecfg.share_pct = 40;
     ecfg.wide_mul = false;
     ecfg.array_eq = cfg.array_eq;
+    ecfg.array_const = !cfg.array_const_only_in_init;
     let mut named = vec![];
     let mut g = ExprGen::new(rng, ecfg);
 
